@@ -1,6 +1,11 @@
+mod c02;
 mod c03;
+mod c08;
+mod c11;
+mod c13;
 mod common;
 mod progs;
+mod wgpucheck;
 
 fn main() {
     common::install_quiet_panic_hook();
@@ -9,13 +14,57 @@ fn main() {
         eprintln!("usage: explore <property-id> quick|thorough | explore replay <file>");
         std::process::exit(2);
     }
+    if args[1] == "replay" {
+        std::process::exit(replay(&args[2]));
+    }
+    if args[1] == "gen" {
+        let src = std::fs::read_to_string(&args[2]).unwrap();
+        let cfg = args.get(3).and_then(|k| common::Config::from_key(k)).unwrap_or_default();
+        match common::generate(&src, &cfg) {
+            common::Outcome::Ok(t) => println!("{t}"),
+            other => println!("{other:?}"),
+        }
+        match common::naga_check(&src) {
+            Ok(_) => eprintln!("naga: valid"),
+            Err(e) => eprintln!("naga: {e}"),
+        }
+        return;
+    }
     let tier = args[2].as_str();
     let code = match args[1].as_str() {
+        "C02" => c02::run(tier),
         "C03" => c03::run(tier),
+        "C08" => c08::run(tier),
+        "C11" => c11::run(tier),
+        "C13" => c13::run(tier),
         other => {
             eprintln!("unknown property {other}");
             2
         }
     };
     std::process::exit(code);
+}
+
+/// Re-runs one recorded case (generator only) and shows what the real code does with it.
+fn replay(path: &str) -> i32 {
+    let v: serde_json::Value = serde_json::from_str(&std::fs::read_to_string(path).expect("replay file")).expect("replay json");
+    println!("property: {}", v["property"]);
+    println!("case:     {}", v["case"]);
+    println!("recorded: {}", v["signature"]);
+    let d = &v["detail"];
+    if let Some(src) = d["wgsl"].as_str() {
+        let cfg = d["config"].as_str().and_then(common::Config::from_key).unwrap_or_default();
+        println!("config:   {}", cfg.key());
+        println!("--- wgsl ---\n{src}\n--- outcome of the real generator ---");
+        match common::generate(src, &cfg) {
+            common::Outcome::Ok(t) => println!("Ok:\n{t}"),
+            other => println!("{other:?}"),
+        }
+    }
+    for k in ["expected", "observed", "schedule", "history", "script"] {
+        if !d[k].is_null() {
+            println!("{k}: {}", d[k]);
+        }
+    }
+    0
 }
